@@ -110,7 +110,11 @@ def run_tlc(module, cfg, metadir, workers=1, trace=None, timeout=3000, extra_env
         cmd += ["-seed", str(seedv)]
     cmd.append(module)
     env = tlc_env(trace, extra_env)
-    env["JAVA_TOOL_OPTIONS"] = "-Xss1g -XX:ParallelGCThreads=%d" % (2 if workers == 1 else 4)
+    if workers == 1:
+        # many single-worker JVMs run side by side: keep each one small
+        env["JAVA_TOOL_OPTIONS"] = "-Xss512m -XX:+UseSerialGC -XX:CICompilerCount=2"
+    else:
+        env["JAVA_TOOL_OPTIONS"] = "-Xss512m -XX:ParallelGCThreads=4"
     try:
         p = subprocess.run(cmd, cwd=SPEC, env=env, stdout=subprocess.PIPE, stderr=subprocess.STDOUT, text=True, timeout=timeout)
     except subprocess.TimeoutExpired:
@@ -281,31 +285,42 @@ class Verdict:
         self.known = {}        # finding id -> count
         self.known_desc = {}
         self.kf = load_known()
+        self.by_key = {}
+        self.first_replay = {}
 
     def nonconf(self, group, check, ev, what, replay_obj):
+        """Registers one non-conformance.  At most 3 replay files are written per (group, check)."""
         k = match_known(self.kf, self.prop, group, check, ev)
         if k:
             self.known[k["id"]] = self.known.get(k["id"], 0) + 1
             self.known_desc[k["id"]] = k["what"]
             return False
-        if len(self.violations) < 25:
-            name = hashlib.sha1(json.dumps(replay_obj, sort_keys=True).encode()).hexdigest()[:10]
-            path = write_replay(self.prop, name, replay_obj)
+        key = (group, check)
+        n = self.by_key.get(key, 0)
+        self.by_key[key] = n + 1
+        if n < 3:
+            name = hashlib.sha1(json.dumps(replay_obj, sort_keys=True, default=str).encode()).hexdigest()[:10]
+            path = write_replay(self.prop, name, replay_obj() if callable(replay_obj) else replay_obj)
+            self.first_replay.setdefault(key, path)
             self.violations.append((what, path))
         else:
-            self.violations.append((what, self.violations[0][1]))
+            self.violations.append((None, None))
         return True
+
+    def wants_replay(self, group, check, ev):
+        """True when a replay object is still needed for this (group, check)."""
+        if match_known(self.kf, self.prop, group, check, ev):
+            return False
+        return self.by_key.get((group, check), 0) < 3
 
     def finish(self):
         for kid, n in sorted(self.known.items()):
             print("KNOWN-FINDING: property=%s %s [%s, %d occurrence(s) in this run]" % (self.prop, self.known_desc[kid], kid, n))
-        seen = set()
-        for what, path in self.violations[:25]:
-            if (what, path) in seen:
-                continue
-            seen.add((what, path))
-            print("VIOLATION property=%s replay=%s %s" % (self.prop, path, what))
-        if len(self.violations) > 25:
-            print("(%d further violations of %s not listed)" % (len(self.violations) - 25, self.prop))
+        for what, path in self.violations:
+            if what is not None:
+                print("VIOLATION property=%s replay=%s %s" % (self.prop, path, what))
+        for key, n in sorted(self.by_key.items()):
+            if n > 3:
+                print("(%d further violations of %s by %s/%s; first replay %s)" % (n - 3, self.prop, key[0], key[1], self.first_replay[key]))
         sys.stdout.flush()
         return 1 if self.violations else 0
